@@ -9,6 +9,7 @@ import (
 	"encoding/binary"
 	"encoding/json"
 	"fmt"
+	"math"
 	"math/big"
 	"math/rand"
 	"os"
@@ -33,6 +34,7 @@ type c03fcase struct {
 	Seed   int64 `json:"seed"`
 	Blocks int   `json:"blocks"`
 	Shards int   `json:"shards"`
+	Online int   `json:"online,omitempty"` // this many further users keep themselves online (more than two validators: the VRF threshold has room to move)
 	Jump   bool  `json:"jump"` // the clock sometimes jumps minutes ahead between blocks (late chain: still one period per block)
 }
 
@@ -43,6 +45,9 @@ func c03fRun(c *hx.Ctx, cs c03fcase) error {
 			cfg.Consensus.StatusSwitchRange = 5
 			cfg.Consensus.DelegationSwitchRange = 7
 			cfg.Consensus.DiscriminationSwitchRange = 6
+		}
+		for k := 0; k < cs.Online; k++ {
+			o.Always[2+k] = true
 		}
 		if cs.Shards > 1 {
 			w.AddFresh(4)
@@ -108,6 +113,8 @@ func c03fRun(c *hx.Ctx, cs c03fcase) error {
 			st.LastSnapshot(), emptyStr()), "ok")
 	}
 	sync()
+	vsync := func() { c.Line("vsync "+B.App.State.FxEmptyBlocksBits(), "ok") }
+	vsync()
 	for b := 1; b <= cs.Blocks; b++ {
 		p.H.OfferTxs(b)
 		if r.Intn(3) == 0 {
@@ -119,7 +126,11 @@ func c03fRun(c *hx.Ctx, cs c03fcase) error {
 		}
 		chainfx.Advance(step)
 		var blk *types.Block
-		empty := r.Intn(6) == 0 && b > 3
+		emptyOdds := 6
+		if cs.Online > 0 {
+			emptyOdds = 45 // the threshold leaves its floor only after a full window of non-empty blocks
+		}
+		empty := r.Intn(emptyOdds) == 0 && b > 3
 		if !empty && !A.IsEligibleProposer() {
 			if !B.IsEligibleProposer() {
 				empty = true // nobody of the two may propose: the chain goes on with empty blocks
@@ -219,6 +230,8 @@ func c03fRun(c *hx.Ctx, cs c03fcase) error {
 		}
 		line := mkLine()
 		periodBefore := st.ValidationPeriod()
+		thrBefore := st.VrfProposerThreshold()
+		validatorsBefore := float64(B.App.ValidatorsCache.ValidatorsSize())
 		clone, _ := chainfx.CloneBlock(blk)
 		if err := B.Add(clone); err != nil {
 			fail("C03:original-not-insertable", fmt.Sprintf("height %d: %v", blk.Height(), err), b)
@@ -235,6 +248,44 @@ func c03fRun(c *hx.Ctx, cs c03fcase) error {
 		}
 		flags := uint32(blk.Header.Flags()) &^ uint32(types.OfflinePropose|types.OfflineCommit)
 		c.Line(line, fmt.Sprintf("flags=%d period=%d cnt=%d snap=%d empty=%s", flags, st.ValidationPeriod(), st.BlocksCntWithoutCeremonialTxs(), st.LastSnapshot(), emptyStr()))
+		// the empty-block window and the direction of the VRF proposer threshold move (applyVrfProposerThreshold)
+		c.Line(fmt.Sprintf("bits %d", b2(blk.IsEmpty())), fmt.Sprintf("bits=%s cnt=%d", st.FxEmptyBlocksBits(), st.EmptyBlocksCount()))
+		{
+			online := validatorsBefore
+			if online == 0 {
+				online = 1
+			}
+			minVrf := math.Max(cfg.Consensus.MinProposerThreshold, 1.0-5.0/online)
+			maxVrf := math.Max(cfg.Consensus.MinProposerThreshold, 1.0-1.0/online)
+			stepF := (maxVrf - minVrf) / 60
+			after := st.VrfProposerThreshold()
+			var match []int
+			for _, d := range []int{1, 0, -1} {
+				cand := thrBefore
+				switch d {
+				case 1:
+					cand += stepF
+				case -1:
+					cand -= stepF
+				}
+				cand = math.Max(minVrf, math.Min(cand, maxVrf))
+				if cand == after {
+					match = append(match, d)
+				}
+			}
+			switch len(match) {
+			case 0:
+				fail("C03:vrf-threshold-not-one-step", fmt.Sprintf("height %d: threshold %v -> %v with bounds [%v,%v] step %v", blk.Height(), thrBefore, after, minVrf, maxVrf, stepF), b)
+			case 1:
+				c.Line("vrfdir", fmt.Sprintf("dir=%d", match[0]))
+				c.Hit(fmt.Sprintf("vrfdir:%d", match[0]))
+			default:
+				c.Hit("vrfdir:hidden-by-clamp")
+			}
+			if after < minVrf || after > maxVrf {
+				fail("C03:vrf-threshold-outside-bounds", fmt.Sprintf("height %d: %v not in [%v,%v]", blk.Height(), after, minVrf, maxVrf), b)
+			}
+		}
 		if !blk.IsEmpty() {
 			// the fee rate the block leaves behind (calculateNextBlockFeePerGas; an empty block does not touch it)
 			kd := decimal.NewFromFloat32(cfg.Consensus.FeeSensitivityCoef)
@@ -305,6 +356,9 @@ func init() {
 			cs := c03fcase{Seed: c.Seed*1000 + 500 + int64(i), Blocks: 150, Jump: i%3 == 1}
 			if i%2 == 1 {
 				cs.Shards = 2 + i%3
+			}
+			if i%3 == 2 {
+				cs.Online = 2 + i%5
 			}
 			if err := c03fRun(c, cs); err != nil {
 				return err
